@@ -19,7 +19,7 @@ CLAIMS = {
    text="Partial: decides that the input circuit is never mutated (A4), that the output obeys the connectivity (C02 rules) and that the output's two-qubit cost is the class cost independent of the input's length (P6+T5: the caller's circuit is not a leaf of the result term). Does NOT decide 'prepares the same state' (value-level).",
    note=TB),
  "C08": dict(ref="DESIGN.md 4/C08", technique="static analysis: sibling agreement by exact partial evaluation of the gate predicate over an enumerated grid + dominance (must-pass-through) of the gate before every table access + flag propagation",
-   text="Partial: decides the configuration clause (five sibling definitions of the supported set agree with the 20 advertised pairs; the set of pairs each public entry point can serve is exactly those 20) and that the underconstrained-input check of the sign-reference synthesis is never relaxed on the API path (G4). Does NOT decide 'raise or be correct' for arbitrary invalid Pauli sets (value-level).",
+   text="Partial: decides the configuration clause (five sibling definitions of the supported set agree with the 20 advertised pairs; the set of pairs each public entry point can serve is exactly those 20) and that the underconstrained-input check of the sign-reference synthesis is never relaxed on the API path (G4). Also decides a necessary condition of 'the validity check accepts exactly the commuting independent sets': its verdict does not depend on the signs (NI2). Does NOT decide 'raise or be correct' for arbitrary invalid Pauli sets (value-level).",
    note=TB),
  "C09": dict(ref="DESIGN.md 4/C09", technique="static analysis: table lint incl. exhaustive GF(2) arithmetic on the basis literals + def-use wiring of the info API + paired-event path rule",
    text="Partial: decides 2^n+1 lines x n strings, commuting/independent/partition of the Pauli group on the literals (T7, T9 exhaustive), header = (sum, max, max depth) of the lines (T8), info API wired to the right header fields and to 2^n+1 (W8), the two returned lists built pairwise from the same lines and returned unpermuted (W9). Does NOT decide 'i-th circuit diagonalises i-th basis' nor 'MUB cost <= readout cost' (value-level).",
@@ -34,7 +34,7 @@ CLAIMS = {
    text="Partial: 2^n entries (mask loop domain + identity entry, W6), keys unsigned (typestate W7), same wiring/direction/sign/parity/bit-order rules as C10, readout is the inverted sign-free circuit (P4). Sign correctness inside Pauli.evolve is trusted.",
    note=TB),
  "C13": dict(ref="DESIGN.md 4/C13", technique="static analysis: shared-object inventory + allocation-site freshness/escape analysis + parameter-mutation summaries + nondeterminism-source reachability",
-   text="Decides the aliasing/history clauses: no shared (cache-, module-, class-, default-argument-reachable) mutable container or circuit escapes uncopied or is mutated in place (A1, A3, A5), cache keys complete (A2), protected parameters never mutated (A4), no nondeterminism source reachable (A7). Behaviour of Qiskit objects themselves is trusted.",
+   text="Decides the aliasing/history clauses: no shared (cache-, module-, class-, default-argument-reachable) mutable container or circuit escapes uncopied or is mutated in place (A1, A3, A5), cache keys complete (A2; cache lookups by try/except KeyError, `in` and `.get` are modelled as a miss/hit fork), memoised functions hand out immutable or copied results (A1), module state is not re-bound from parameters (A1, else exit 2), protected parameters never mutated (A4), no nondeterminism source reachable incl. iteration over sets of non-integers (A7). Behaviour of Qiskit objects themselves is trusted.",
    note=TB),
  "C14": dict(ref="DESIGN.md 4/C14", technique="static analysis: finite-domain evaluation of the Pauli codec tables, structural mirror rule, may-be-empty analysis of the graph-state circuit",
    text="Partial (thin): Pauli-character encode/decode tables mutually inverse (K4), reversed export is a pure character-order mirror (B4), graph constructor = (I, Gamma, 0) (K5), graph-state circuit well-defined for every graph incl. edgeless (E2). Does NOT decide string/matrix/circuit parsing values or Qiskit tableau conventions.",
@@ -48,8 +48,8 @@ CLAIMS = {
  "C18": dict(ref="DESIGN.md 4/C18", technique="static analysis: may-be-empty + dtype analysis at the kernel routine's return, parameter-mutation summaries",
    text="Partial (one clause): the empty kernel is returned with declared integer dtype and 2-D shape on every path (E1); none of the four routines mutates its argument (A4). Does NOT decide correctness of the elimination (value-level).",
    note=TB),
- "C19": dict(ref="DESIGN.md 4/C19", technique="static analysis: loop-nest recognition + exact evaluation of both codecs on unit graphs for n = 2..6, edge-primitive summaries",
-   text="Partial (codec clause): compress/decompress enumerate the same affine (i,j)->bit bijection, equal to the documented layout (K10); edge store/test primitives symmetric (K11). Does NOT decide local complementation semantics or grouping index arithmetic.",
+ "C19": dict(ref="DESIGN.md 4/C19", technique="static analysis: loop-nest recognition + exact partial evaluation (no import, whitelisted AST evaluator) of the codecs on unit graphs and of local complementation on every graph of the enumerated finite domain",
+   text="Partial (codec clause): compress/decompress enumerate the same affine (i,j)->bit bijection, equal to the documented layout (K10); edge store/test primitives symmetric (K11); local complementation (both forms) complements exactly the edges among the neighbours, is an involution and keeps the graph simple, by exact evaluation of the method's syntax tree for EVERY graph on 2..5 vertices (quick) / 2..6 vertices = the property's whole domain (thorough) (K12). Does NOT decide 'the state stays in the same class' nor grouping index arithmetic.",
    note=TB),
 }
 
